@@ -12,10 +12,17 @@ import (
 	rt "metacontroller/pkg/zzverif/rt"
 )
 
-func verifC12DCSetup() (*verifDC, *env.World) {
+func verifC12DCSetup() (*verifDC, *env.World) { return verifC12DCSetupStatus(false) }
+
+// statusThere: the target already has the status the hook wants, so the only
+// write to the target is the label update.
+func verifC12DCSetupStatus(statusThere bool) (*verifDC, *env.World) {
 	w := env.NewWorld()
 	target := verifDCTarget(env.ThingRes, "ns", "p", "puid")
 	target.Object["spec"] = map[string]interface{}{"x": "1"}
+	if statusThere {
+		target.Object["status"] = map[string]interface{}{"phase": "ok"}
+	}
 	w.Srv.Put("things", target)
 	// one attachment to update, one stale attachment to delete, one to create
 	old := verifDCApplied(env.ConfigMap("ns", "a", "", "old"), target, "puid", verifDCName, "uid-a")
@@ -63,10 +70,14 @@ func VerifC12_DecoratorFaultFree() {
 }
 
 func VerifC12_DecoratorFaults() {
-	dc, w := verifC12DCSetup()
-	dc.SnapshotFromStore()
-	// fault-free sequence: update-status p, update p, delete b, update a, create c
-	const nreq = 5
+	statusThere := rt.Bool("target-status-already-as-desired")
+	dc, w := verifC12DCSetupStatus(statusThere)
+	dc.Resnapshot()
+	// fault-free sequence: [update-status p,] update p, delete b, update a, create c
+	nreq := 5
+	if statusThere {
+		nreq = 4
+	}
 	pos := rt.Choice("fault-at", nreq)
 	kind := 1 + rt.Choice("fault-kind", env.NumFaultKinds-2)
 	w.Srv.ArmFault(pos, kind, "", true)
@@ -114,8 +125,10 @@ func VerifC12_DecoratorFaults() {
 	}
 	// once faults stop the cluster converges to the fault-free state and goes quiet
 	w.Srv.DisarmFault()
+	// (the retries see the cache a real informer would show: unchanged objects
+	// are the very same in-memory objects as in the failed sync)
 	for i := 0; i < 3; i++ {
-		dc.SnapshotFromStore()
+		dc.Resnapshot()
 		dc.Queue.Items = append(dc.Queue.Items, verifC12DCKey)
 		dc.processNextWorkItem()
 	}
